@@ -159,5 +159,12 @@ def run_shard(shard, rec):
     rec.count("schema", v, shard["n"])
 
 
+def finalize(merged, tier, inconclusive):
+    seen = merged.hist.get("mutation-kind", {})
+    for k in annot.MUTATION_KINDS:
+        if seen.get(k, 0) < 20:
+            inconclusive.append(f"mutation kind '{k}' was exercised {seen.get(k, 0)} times (< 20)")
+
+
 def replay(case, rec):
     check_case(case, rec)
